@@ -2186,13 +2186,20 @@ def c17_fd(inp):
             mu = np.exp(np.concatenate([lam, lam.conj()]) * dt)
             phi = rng.randn(l, m)
             V = np.concatenate([phi, phi], axis=1).astype(complex)
-            Obs_t = np.vstack([V * mu ** i for i in range(br + 1)])
             g = rng.randn(m) + 1j * rng.randn(m)
             G = np.concatenate([g, g.conj()])
+            # every second case also has REAL poles (an over-damped and an aliased one): eig lists them next to each other, with
+            # imaginary parts +0.0 / -0.0 - each has its own variance like any other pole
+            nreal = 2 if trial % 2 == 1 else 0
+            if nreal:
+                mu = np.concatenate([mu, [rng.uniform(0.5, 0.9), -rng.uniform(0.3, 0.8)]])
+                V = np.concatenate([V, rng.randn(l, nreal)], axis=1)
+                G = np.concatenate([G, rng.randn(nreal) + 0j])
+            Obs_t = np.vstack([V * mu ** i for i in range(br + 1)])
             Ctr = np.vstack([(mu ** j) * G for j in range((br + 1) * r)]).T
             shape = ((br + 1) * l, (br + 1) * r)
             H0 = np.real(Obs_t @ Ctr) + 1e-2 * np.abs(np.real(Obs_t @ Ctr)).max() * rng.randn(*shape)
-            ordmax = min(2 * m + int(rng.randint(0, 3)), min(shape) - 1, 8)
+            ordmax = min(2 * m + nreal + int(rng.randint(0, 3)), min(shape) - 1, 8)
             if ordmax < 2:
                 continue
             sv = np.linalg.svd(H0, compute_uv=False)[:ordmax + 1]
